@@ -1,3 +1,6 @@
+pub mod early;
+pub mod refine;
 pub mod regret;
+pub mod sampling;
 pub mod threads;
 pub mod totality;
